@@ -1,7 +1,7 @@
 (* C05 -- a rejected request raises KeyError/ValueError and changes nothing.
    Theorem statements only; proofs in Fresh.v / Atomic.v. *)
 From Coq Require Import String ZArith Bool Arith List.
-From SV Require Import Names NamesFacts Rep Fresh Complex Atomic.
+From SV Require Import Names NamesFacts Rep Fresh Complex Atomic Continuation.
 Import ListNotations.
 
 (* addSimplex (by faces / a point): whatever the faces, name and attributes, a rejection leaves
@@ -88,3 +88,25 @@ Definition tri : rep :=
 Example C05_example_duplicate_edge :
   exists r', addSimplex tri [NInt 1; NInt 2] (Some (NInt 77)) (Some (0, 0)) = (r', Raise KeyError) /\ r' = tri.
 Proof. eexists. split; vm_compute; reflexivity. Qed.
+
+(* CONTINUATION: a rejected request leaves an observably equal complex (the theorems above), and the
+   primitive mutators are functions of the observable fields -- on observably equal complexes a
+   rename, a removal, and an add that names its simplex and brings its attributes give the same
+   outcome and observably equal results: later requests behave as if the rejected one had never
+   been made.  (A generated name or a fresh attribute dictionary depends on counters that a
+   rejected call may have advanced: the statement does not cover them, see DESIGN.md 5(b).) *)
+Theorem C05_continuation_after_a_rejected_request :
+  forall r1 r2, same_obs r1 r2 ->
+  (forall s q, snd (relabelSimplex r1 s q) = snd (relabelSimplex r2 s q) /\
+               same_obs (fst (relabelSimplex r1 s q)) (fst (relabelSimplex r2 s q))) /\
+  (forall s, snd (forceDeleteSimplex r1 s) = snd (forceDeleteSimplex r2 s) /\
+             same_obs (fst (forceDeleteSimplex r1 s)) (fst (forceDeleteSimplex r2 s))) /\
+  (forall fs n h, snd (addSimplex r1 fs (Some n) (Some h)) = snd (addSimplex r2 fs (Some n) (Some h)) /\
+                  same_obs (fst (addSimplex r1 fs (Some n) (Some h))) (fst (addSimplex r2 fs (Some n) (Some h)))).
+Proof.
+  intros r1 r2 Hs. split; [|split].
+  - intros s q. now apply relabelSimplex_respects.
+  - intros s. now apply forceDeleteSimplex_respects.
+  - intros fs n h. now apply addSimplex_respects.
+Qed.
+Print Assumptions C05_continuation_after_a_rejected_request.
